@@ -156,6 +156,33 @@ def units(tier):
                 v.post = _frame_post
                 U.append(v)
 
+    # ---- amplitude_normalise: works on a copy for 2-d and for 3-d (second-layer) input
+    import emd.utils as EU
+    for nd in (2, 3):
+        def mk_an(c, nd=nd):
+            T = z3.Int('T')
+            c.assume(T >= 4)
+            shape = (T, 2) if nd == 2 else (T, 1, 2)
+            f = z3.Function('Xan', *([I] * nd + [R]))
+            return (SArr(shape, lambda *ix: f(*ix), 'f'),), {}
+
+        def call_an(f, c, a, kw):
+            def env_stub(X, mode='upper', interp_method='splrep', extrema_opts=None, ret_extrema=False):
+                c2 = core.C()
+                if c2.branch(c2.fresh('has_env', B)):
+                    g = c2.fresh_fun('env', I, R)
+                    return SArr((X.shape_e[0],), lambda i: g(i), 'f')
+                return None
+            f.__globals__['interp_envelope'] = env_stub
+            return f(*a, **kw)
+        v = Unit('frame:amplitude_normalise[ndim=%d]' % nd, 'emd/utils.py', 'amplitude_normalise', mk_an, _frame_post, module=EU, wrap_call=call_an,
+                 loops={2: {'inv': [('true', lambda e: True)],
+                            # inside the loop the envelope is an array (it is None only when the loop is not entered)
+                            'decl': {'env': lambda e: SArr((e.X.shape_e[0],), (lambda g: lambda i: g(i))(core.C().fresh_fun('envh', I, R)), 'f')}}})
+        v.frame = True
+        v.keep_kinds = ('frame', 'post')
+        U.append(v)
+
     # ---- second-layer sifts: the caller's option dictionary must not be written
     import emd.sift as ES
 
@@ -332,8 +359,27 @@ def _routines():
         'frequency_transform[hilbert]': (lambda a, o: np.c_[SP.frequency_transform(a.reshape(a.shape[0], -1) if a.ndim > 1 else a, 64, 'hilbert')], 'column'),
         'frequency_transform[nht]': (lambda a, o: np.c_[SP.frequency_transform(a.reshape(a.shape[0], -1) if a.ndim > 1 else a, 64, 'nht')], 'column'),
         'frequency_transform[quad]': (lambda a, o: np.c_[SP.frequency_transform(a.reshape(a.shape[0], -1) if a.ndim > 1 else a, 64, 'quad')], 'column'),
+        # second-layer (3-d) inputs [samples x imfs x second-level imfs]
+        'amplitude_normalise[3d]': (lambda a, o: UT.amplitude_normalise(_as3d(a)), '3d'),
+        'frequency_transform[nht,3d]': (lambda a, o: np.concatenate(SP.frequency_transform(_as3d(a), 64, 'nht'), axis=1), '3d'),
+        'frequency_transform[quad,3d]': (lambda a, o: np.concatenate(SP.frequency_transform(_as3d(a), 64, 'quad'), axis=1), '3d'),
     }
     return R, dict(x=x, imf=imf, IP=IP, IF=IF, IA=IA, edges=edges)
+
+
+_3D_CACHE = {}
+
+
+def _as3d(a):
+    """the 3-d array built from signal a (kept per input object so that read-only flags / byte comparisons see the array that was passed)"""
+    key = id(a)
+    if key not in _3D_CACHE:
+        v = a.reshape(a.shape[0], -1)[:, 0]
+        arr = np.stack([np.c_[v, v[::-1]], np.c_[0.5 * v + 0.1 * np.cos(np.arange(len(v))), v * np.linspace(1, 2, len(v))]], axis=2)
+        arr.setflags(write=a.flags.writeable)
+        _3D_CACHE.clear()
+        _3D_CACHE[key] = (arr, arr.copy())
+    return _3D_CACHE[key][0]
 
 
 def _opts():
@@ -348,6 +394,8 @@ def _replay_routine(w):
     f, first = R[name]
     x = D['x']
     what = w['check']
+    if what == 'layouts' and first == '3d':
+        return False, 'n/a'
     if what == 'layouts':
         base = np.asarray(f(x.copy(), {}))
         for lay in ((len(x), 1), (len(x), 1, 1)):
@@ -385,6 +433,8 @@ def _replay_routine(w):
             return True, '%s raised %s' % (name, ex)
         if not np.array_equal(a, x):
             return True, '%s modified its input array' % name
+        if first == '3d' and _3D_CACHE and not np.array_equal(*list(_3D_CACHE.values())[0]):
+            return True, '%s modified its 3-d input array' % name
         if repr(o) != repr(o0):
             return True, '%s modified the option dictionaries passed to it: %s -> %s' % (name, o0, o)
         return False, 'ok'
